@@ -129,4 +129,215 @@ theorem framePackets_demux (c : Cfg) (f : Frame) (cc : Nat) (hc : CfgOk c) (hf :
   refine ⟨first :: rest, hp, hpid, hcc, by simp [h1], ?_⟩
   simp [demuxPid, filter_pid_self f.pid _ hpid, splitUnits_unit first rest h1 hr, hpes]
 
+/-! ### a whole stream of frames -/
+
+theorem ccChain_append (A B : List TsPacket) : ∀ (s : Nat), ccChain s A = true →
+    ccChain s (A ++ B) = ccChain (s + A.length) B := by
+  induction A with
+  | nil => intro s _; simp
+  | cons p A ih =>
+    intro s h
+    simp only [ccChain, Bool.and_eq_true, beq_iff_eq] at h
+    obtain ⟨hp, hA⟩ := h
+    simp only [List.cons_append, ccChain, hp, beq_self_eq_true, Bool.true_and]
+    rw [← hp, ih p.cc hA]
+    exact ccChain_congr _ _ (by simp only [List.length_cons]; omega) B
+
+/-- the PES packets expected on `pid`: one per frame of that PID with a non-empty payload -/
+def pesFor (pid : Nat) (fs : List Frame) : List Pes :=
+  (fs.filter (fun f => f.pid == pid && !f.payload.isEmpty)).map pesOf
+
+/-- the order in which units start = the order of the (non-empty) frames -/
+def startPids (fs : List Frame) : List Nat := (fs.filter (fun f => !f.payload.isEmpty)).map (·.pid)
+
+theorem filter_pusi_unit (first : TsPacket) (rest : List TsPacket) (h1 : first.pusi = true)
+    (hr : ∀ p ∈ rest, p.pusi = false) : (first :: rest).filter (·.pusi) = [first] := by
+  have : rest.filter (·.pusi) = [] := List.filter_eq_nil_iff.mpr (fun p hp => by simp [hr p hp])
+  simp [List.filter_cons, h1, this]
+
+theorem writeFrame_audio (c : Cfg) (w : Writer) (f : Frame) (h : f.pid = c.audioPid) :
+    writeFrame c w f = ({ w with audioCC := w.audioCC + (framePackets c f w.audioCC).length },
+                        framePackets c f w.audioCC) := by
+  have hb : (f.pid == c.audioPid) = true := by simp [h]
+  simp [writeFrame, hb]
+
+theorem writeFrame_video (c : Cfg) (w : Writer) (f : Frame) (h : f.pid ≠ c.audioPid) :
+    writeFrame c w f = ({ w with videoCC := w.videoCC + (framePackets c f w.videoCC).length },
+                        framePackets c f w.videoCC) := by
+  have hb : (f.pid == c.audioPid) = false := by simp [h]
+  simp [writeFrame, hb]
+
+theorem writeFrames_cons (c : Cfg) (w : Writer) (f : Frame) (fs : List Frame) :
+    Ts.writeFrames c w (f :: fs) = (writeFrame c w f).2 ++ Ts.writeFrames c (writeFrame c w f).1 fs := by
+  simp [Ts.writeFrames]
+
+theorem cc_step (pid q : Nat) (A tps : List TsPacket) (s s' : Nat) (hpidA : ∀ p ∈ A, p.pid = q)
+    (h : if q = pid then (ccChain s A = true ∧ s' = s + A.length) else s' = s)
+    (hB : ccChain s' (tps.filter (·.pid == pid)) = true) :
+    ccChain s ((A ++ tps).filter (·.pid == pid)) = true := by
+  rw [List.filter_append]
+  by_cases hq : q = pid
+  · simp only [hq, if_true] at h
+    obtain ⟨hA, hs⟩ := h
+    rw [filter_pid_self pid A (fun p hp => (hpidA p hp).trans hq), ccChain_append _ _ _ hA, ← hs]
+    exact hB
+  · simp only [hq, if_false] at h
+    rw [filter_pid_none pid A q hpidA hq, List.nil_append, ← h]
+    exact hB
+
+theorem units_step (pid : Nat) (f : Frame) (fs : List Frame) (first : TsPacket) (rest tps : List TsPacket)
+    (u : List (List TsPacket)) (hp1 : first.pusi = true) (hpr : ∀ p ∈ rest, p.pusi = false)
+    (hpid : ∀ p ∈ first :: rest, p.pid = f.pid) (hne : f.payload ≠ [])
+    (hpes : parsePes (first :: rest) = some (pesOf f))
+    (hu1 : splitUnits (tps.filter (·.pid == pid)) = ([], u)) (hu2 : u.mapM parsePes = some (pesFor pid fs)) :
+    ∃ units, splitUnits (((first :: rest) ++ tps).filter (·.pid == pid)) = ([], units)
+      ∧ units.mapM parsePes = some (pesFor pid (f :: fs)) := by
+  have hemp : f.payload.isEmpty = false := by simp [hne]
+  rw [List.filter_append]
+  by_cases hpq : f.pid = pid
+  · rw [filter_pid_self pid _ (fun p hp => (hpid p hp).trans hpq), splitUnits_append _ _ u hu1,
+      splitUnits_unit first rest hp1 hpr]
+    refine ⟨[first :: rest] ++ u, rfl, ?_⟩
+    have hb : (f.pid == pid) = true := by simp [hpq]
+    simp only [pesFor, List.filter_cons, hb, hemp, Bool.not_false, Bool.and_self, if_true, List.map_cons,
+      List.singleton_append, List.mapM_cons, hpes]
+    simp only [pesFor] at hu2
+    simp [hu2]
+  · rw [filter_pid_none pid _ f.pid hpid hpq, List.nil_append]
+    refine ⟨u, hu1, ?_⟩
+    have hb : (f.pid == pid) = false := by simp [hpq]
+    simpa [pesFor, List.filter_cons, hb] using hu2
+
+theorem writeFrames_parse (c : Cfg) (hc : CfgOk c) (hva : c.videoPid ≠ c.audioPid) :
+    ∀ (fs : List Frame) (w : Writer),
+      (∀ f ∈ fs, FrameOk f ∧ (f.pid = c.videoPid ∨ f.pid = c.audioPid)) →
+      ∃ tps, parsePackets (Ts.writeFrames c w fs) = some tps
+        ∧ (∀ p ∈ tps, p.pid = c.videoPid ∨ p.pid = c.audioPid)
+        ∧ ccChain w.videoCC (tps.filter (·.pid == c.videoPid)) = true
+        ∧ ccChain w.audioCC (tps.filter (·.pid == c.audioPid)) = true
+        ∧ (∀ pid, ∃ units, splitUnits (tps.filter (·.pid == pid)) = ([], units)
+              ∧ units.mapM parsePes = some (pesFor pid fs))
+        ∧ (tps.filter (·.pusi)).map (·.pid) = startPids fs := by
+  intro fs
+  induction fs with
+  | nil =>
+    intro w _
+    exact ⟨[], by simp [Ts.writeFrames, parsePackets], by simp, by simp [ccChain], by simp [ccChain],
+      fun pid => ⟨[], by simp [splitUnits], by simp [pesFor]⟩, by simp [startPids]⟩
+  | cons f fs ih =>
+    intro w hall
+    obtain ⟨hfok, hfpid⟩ := hall f (List.mem_cons_self ..)
+    have hrest : ∀ g ∈ fs, FrameOk g ∧ (g.pid = c.videoPid ∨ g.pid = c.audioPid) :=
+      fun g hg => hall g (List.mem_cons_of_mem _ hg)
+    rw [writeFrames_cons]
+    by_cases hemp : f.payload = []
+    · -- nothing written, counters unchanged
+      have hfp : ∀ cc, framePackets c f cc = [] := fun cc => by simp [framePackets, hemp]
+      have hw : writeFrame c w f = (w, []) := by
+        by_cases haud : f.pid = c.audioPid
+        · rw [writeFrame_audio c w f haud, hfp]; rfl
+        · rw [writeFrame_video c w f haud, hfp]; rfl
+      rw [hw]
+      obtain ⟨tps, h1, h2, h3, h4, h5, h6⟩ := ih w hrest
+      refine ⟨tps, by simpa using h1, h2, h3, h4, ?_, ?_⟩
+      · intro pid
+        obtain ⟨u, hu1, hu2⟩ := h5 pid
+        exact ⟨u, hu1, by simpa [pesFor, List.filter_cons, hemp] using hu2⟩
+      · simpa [startPids, List.filter_cons, hemp] using h6
+    · have hne : f.payload.isEmpty = false := by simp [hemp]
+      by_cases haud : f.pid = c.audioPid
+      · rw [writeFrame_audio c w f haud]
+        obtain ⟨first, rest, hp, hp1, hpr, hpid, hcc, hpes⟩ := framePackets_parse c f w.audioCC hc hfok hemp
+        have hlen := parsePackets_length _ _ hp
+        obtain ⟨tps, h1, h2, h3, h4, h5, h6⟩ :=
+          ih { w with audioCC := w.audioCC + (framePackets c f w.audioCC).length } hrest
+        refine ⟨(first :: rest) ++ tps, parsePackets_append _ _ _ _ hp h1, ?_, ?_, ?_, ?_, ?_⟩
+        · intro p hp'
+          rcases List.mem_append.mp hp' with hm | hm
+          · exact Or.inr ((hpid p hm).trans haud)
+          · exact h2 p hm
+        · exact cc_step c.videoPid f.pid _ tps w.videoCC w.videoCC hpid
+            (by have : f.pid ≠ c.videoPid := by rw [haud]; exact fun h => hva h.symm
+                simp [this]) h3
+        · exact cc_step c.audioPid f.pid _ tps w.audioCC _ hpid
+            (by simp only [haud, if_true]; exact ⟨hcc, by rw [hlen]⟩) h4
+        · intro pid
+          obtain ⟨u, hu1, hu2⟩ := h5 pid
+          exact units_step pid f fs first rest tps u hp1 hpr hpid hemp hpes hu1 hu2
+        · rw [List.filter_append, filter_pusi_unit first rest hp1 hpr]
+          simp only [startPids, List.filter_cons, hne, Bool.not_false, if_true, List.map_cons, List.map_append,
+            List.map_nil, List.singleton_append, hpid first (List.mem_cons_self ..)]
+          simp only [startPids] at h6
+          rw [h6]
+      · have hvid : f.pid = c.videoPid := by rcases hfpid with h | h; exact h; exact absurd h haud
+        rw [writeFrame_video c w f haud]
+        obtain ⟨first, rest, hp, hp1, hpr, hpid, hcc, hpes⟩ := framePackets_parse c f w.videoCC hc hfok hemp
+        have hlen := parsePackets_length _ _ hp
+        obtain ⟨tps, h1, h2, h3, h4, h5, h6⟩ :=
+          ih { w with videoCC := w.videoCC + (framePackets c f w.videoCC).length } hrest
+        refine ⟨(first :: rest) ++ tps, parsePackets_append _ _ _ _ hp h1, ?_, ?_, ?_, ?_, ?_⟩
+        · intro p hp'
+          rcases List.mem_append.mp hp' with hm | hm
+          · exact Or.inl ((hpid p hm).trans hvid)
+          · exact h2 p hm
+        · exact cc_step c.videoPid f.pid _ tps w.videoCC _ hpid
+            (by simp only [hvid, if_true]; exact ⟨hcc, by rw [hlen]⟩) h3
+        · exact cc_step c.audioPid f.pid _ tps w.audioCC w.audioCC hpid (by simp [haud]) h4
+        · intro pid
+          obtain ⟨u, hu1, hu2⟩ := h5 pid
+          exact units_step pid f fs first rest tps u hp1 hpr hpid hemp hpes hu1 hu2
+        · rw [List.filter_append, filter_pusi_unit first rest hp1 hpr]
+          simp only [startPids, List.filter_cons, hne, Bool.not_false, if_true, List.map_cons, List.map_append,
+            List.map_nil, List.singleton_append, hpid first (List.mem_cons_self ..)]
+          simp only [startPids] at h6
+          rw [h6]
+
+/-! ### from packets to the flat byte stream -/
+
+theorem parsePacket_length (p : List UInt8) (t : TsPacket) (h : parsePacket p = some t) : p.length = 188 := by
+  unfold parsePacket at h
+  by_cases hl : p.length ≠ 188
+  · simp [hl] at h
+  · omega
+
+theorem parsePackets_all188 : ∀ (ps : List (List UInt8)) (tps : List TsPacket),
+    parsePackets ps = some tps → ∀ p ∈ ps, p.length = 188 := by
+  intro ps
+  induction ps with
+  | nil => intro _ _ p hp; simp at hp
+  | cons a l ih =>
+    intro tps h p hp
+    simp only [parsePackets, List.mapM_cons] at h ih
+    cases ha : parsePacket a with
+    | none => simp [ha] at h
+    | some x =>
+      cases hl : List.mapM parsePacket l with
+      | none => simp [ha, hl] at h
+      | some xs =>
+        rcases List.mem_cons.mp hp with rfl | hm
+        · exact parsePacket_length _ _ ha
+        · exact ih xs hl p hm
+
+/-- whole 188-byte packets: splitting the concatenation gives the packets back -/
+theorem chunk188_flatten : ∀ (ps : List (List UInt8)) (fuel : Nat), ps.length ≤ fuel →
+    (∀ p ∈ ps, p.length = 188) → chunk188 fuel ps.flatten = some ps := by
+  intro ps
+  induction ps with
+  | nil => intro fuel _ _; cases fuel <;> simp [chunk188]
+  | cons p ps ih =>
+    intro fuel hf hall
+    cases fuel with
+    | zero => simp at hf
+    | succ fuel =>
+      have hp : p.length = 188 := hall p (List.mem_cons_self ..)
+      have hne : (p ++ ps.flatten).isEmpty = false := by
+        cases p with
+        | nil => simp at hp
+        | cons a b => simp
+      have ht : (p ++ ps.flatten).take 188 = p := List.take_left' hp
+      have hd : (p ++ ps.flatten).drop 188 = ps.flatten := List.drop_left' hp
+      simp only [List.flatten_cons, chunk188, hne, ht, hd, hp]
+      rw [ih fuel (by simpa using hf) (fun q hq => hall q (List.mem_cons_of_mem _ hq))]
+      simp
+
 end IpcHub.TsLemmas
